@@ -50,8 +50,8 @@ func main() {
 	parseOut := flag.String("parse-out", "", "output Lean file for the translated body of Session.Parse (F11, Gen/ParseGen.lean); default: not written")
 	arpOut := flag.String("arp-out", "", "output Lean file for the translated ARP spoofing handler (F15, Gen/ArpGen.lean); default: not written")
 	tablesOut := flag.String("tables-out", "", "output Lean file for the translated host/MAC table operations (F14, Gen/TablesGen.lean); default: not written")
-	pingOut := flag.String("ping-out", "", "output Lean file for the translated ping / echo notification code (F17, Gen/PingGen.lean); default: not written")
-	sessLifeOut := flag.String("sesslife-out", "", "output Lean file for the translated session life cycle (F17, Gen/SessLifeGen.lean); default: not written")
+	pingOut := flag.String("ping-out", "", "output Lean file for the translated ping / echo notification code (F19, Gen/PingGen.lean); default: not written")
+	sessLifeOut := flag.String("sesslife-out", "", "output Lean file for the translated session life cycle (F19, Gen/SessLifeGen.lean); default: not written")
 	icmp6Out := flag.String("icmp6-out", "", "output Lean file for the translated ICMPv6 / NDP spoofing handler (F15, Gen/Icmp6Gen.lean); default: not written")
 	flag.Parse()
 	cfg := &packages.Config{Mode: packages.NeedName | packages.NeedFiles | packages.NeedSyntax | packages.NeedTypes | packages.NeedTypesInfo | packages.NeedImports | packages.NeedDeps, Dir: *repo, Tests: false}
